@@ -19,6 +19,9 @@ let channels : (string * ((string * string) list -> string)) list = [
   ("llpinv", Chan_llp.run_inv);
   ("llprun", Chan_llp.run_run);
   ("ess", Chan_ess.run);
+  ("sort", Chan_sort.run_sort);
+  ("sortcodec", Chan_sort.run_codec);
+  ("sortkm", Chan_sort.run_km);
 ]
 
 let () =
